@@ -158,6 +158,13 @@ TEXT.update({
   "level": "Frame k is exactly the bytes of frame k for native 8/16-bit data (rows, columns 1-4 symbolic), for 1-bit data with ANY pixel count (rows, columns 1-17: the bytes holding bits [k*n,(k+1)*n)), and for encapsulated data with an offset table.",
   "note": "decode_pixel_data / decode_pixel_data_frame (1-bit expansion) are not a callable unit without the registry and file object: outside, and read as defective for pixel counts not divisible by 8 (DESIGN §2 C21)",
  },
+ "C28": {
+  "engine": "M",
+  "technique": "symbolic execution of the rustc MIR of the acceptor's per-context negotiation closure, choose_ts, choose_supported and trim_uid; proposal and configuration are solver-chosen from a small universe of UIDs; z3 decides every path; replay against a real acceptor over loopback",
+  "level": "For one proposed presentation context (abstract syntax among 4 texts incl. NUL-padded; 0..2 transfer syntaxes among 4 texts incl. a padded and an unknown one) and every acceptor configuration over 2 abstract syntaxes, "
+           "3 transfer syntaxes and the promiscuous flag: the result carries the same identifier, is accepted exactly when the rules say so, with the first configured-and-supported proposed transfer syntax, else with the reason naming the failing condition.",
+  "note": "per-context rule only: one result per proposed context, rejection for protocol version / application context / access control and the requestor's maximum PDU length are not encoded; is_supported is a contract (the registry is C16's subject)",
+ },
  "C29": {
   "engine": "M",
   "technique": "typed symbolic evaluation of the MIR of create_a_associate_req (unknown callees havocked) and of its identifier closure, and symbolic execution of the MIR of encode_pdu/write_pdu; z3 queries over the number of contexts, two positions and the peer maximum; replay over a loopback socket",
@@ -187,7 +194,6 @@ NOT_APPLICABLE = {
  "C20": "RLE decode_frame on 2 pixels had no verdict in 900 s on Kani (Vec::resize, Cursor, io::copy, read_to_end); the Engine M vocabulary for these was not built",
  "C23": "serde_json::Value deserialisation (maps, strings of data-dependent length) exceeded 24 GB in SAT on Kani for one element; the dicom-json visitor side was not encoded on Engine M",
  "C27": "read_pdu_from_wire works on BufReader + BytesMut (pointer-rich, bytes::Bytes pointer tagging defeats CBMC's pointer model as measured under C25); not built",
- "C28": "acceptor negotiation over Vec<String> needs the global registry and a hook into process_a_association_rq; Engine M vocabulary for it was not built",
  "C30": "release/abort conformance needs associations over a harness stream (hook) and a symbolic peer; not built; true two-peer interleavings are outside both engines",
  "C32": "file-system effect of a bin crate's TCP loop (sockets, threads, global registry, write_to_file); no callable unit to execute symbolically, Kani has no file-system model",
  "C33": "behaviour of the storescu binary over sockets with image transcoding; not encodable within reach of Kani or the MIR interpreter",
